@@ -26,6 +26,9 @@ RULE = (
     "whole nops after code / zeros after data covered by blocks. "
     "non-trivial = at least one comparison on a non-empty layout; distinct = "
     "(workload, layout-shape signature)."
+    " Workload (c) patches carry alignment directives: the requirement"
+    " of a patch's leading directives must hold at its marker"
+    " instruction."
 )
 ASSUMPTIONS = [
     "PaddingError is an accepted outcome only when the required padding is not a multiple of the nop size",
